@@ -48,3 +48,9 @@ Lemma tbl_close_tags : sc_close_tag = str "</stream:stream>" /\
   sc_close_ws_tag = str "<close xmlns=""urn:ietf:params:xml:ns:xmpp-framing""/>" /\
   sc_send_records_opening_element = true.
 Proof. vm_compute. repeat split; reflexivity. Qed.
+
+(* WebSocket framing: the negotiator tells the session which framing it uses,
+   and the stream reader takes the peer's <close/> for the end of the stream:
+   the model's PClose / IClose stand for <close/> in both directions there *)
+Lemma tbl_ws_framing : sc_negotiator_records_ws = true /\ sc_reader_ws_close_is_eof = true.
+Proof. vm_compute. split; reflexivity. Qed.
